@@ -2,7 +2,7 @@
    Only statements, closed by `exact`, and their assumptions. *)
 From Coq Require Import Permutation.
 From VV Require Import Model.Base Model.Pattern Model.CodonTable Model.BgValidate Proofs.BgValidateProofs
-  Model.Gpo Model.PpeSeq Spec.LiftSpec Proofs.GpoTop Proofs.PpeLiftProofs.
+  Model.Gpo Model.PpeSeq Spec.LiftSpec Proofs.GpoTop Proofs.PpeLiftProofs Model.Transcript Model.CodonsInRange Proofs.CodonsInRangeProofs.
 
 (* the loop of validate_background_variants refuses exactly when some variant starting in the targeton is counted as
    protein changing and force-bg-ns is off, or is also length changing and force-bg-indels is off *)
@@ -52,6 +52,29 @@ Theorem C15_ppe_on_deleted_base_refused_iff : forall g r vs ppes, 0 < rs r -> wf
     if existsb (fun p => in_range p r && deleted vs p) ppes then Err InvalidBackgroundVariant else Ok tt.
 Proof. exact check_liftable_iff. Qed.
 
+(* which codons a variant is judged on (Transcript.get_codons_in_range): for every exonic position of the variant's reference span the
+   codon holding it - completed across exon junctions exactly as get_codon_at reads it - is among the codons returned (identified by the
+   position of its first base), and no codon is returned twice in a row *)
+Theorem C15_codons_in_range_complete : forall t q r out,
+  get_codons_in_range t q r = Ok out -> range_valid r = true -> sorted_after (-1) (t_exons t) ->
+  forall p e, in_range p r = true -> exon_at_pos t p = Some e ->
+  exists k cr c,
+    codon_index_at (t_strand t) e p = Ok (Some k) /\ exon_get_codon (t_strand t) e k = Ok cr /\ in_range p cr = true /\
+    get_cds_seq_exon t q e cr = Ok c /\ get_codon_at t q p = Ok (Some c) /\
+    exists c', In c' out /\ ext_start c' = ext_start c.
+Proof. exact codons_in_range_complete. Qed.
+
+Theorem C15_codons_in_range_no_adjacent_dup : forall t q r c rest,
+  get_codons_in_range t q r = Ok (c :: rest) -> no_adjacent_dup (ext_start c) rest.
+Proof. exact codons_in_range_no_adjacent_dup. Qed.
+
+(* non-vacuity: exons 5-8 | 12 | 15-22 (plus strand), a variant over 7-13 touches the codons starting at 5 and at 8 (the second one
+   split over three exons and met twice) *)
+Example C15_codons_example :
+  codon_keys (get_variant_codons (mkTr Plus [mkEx 5 8 0 0; mkEx 12 12 1 2; mkEx 15 22 2 1]) (mkSeq 1 (d "ACGTACGTACGTACGTACGTACGTACGT")) 7 7)
+  = Ok [(5, d "ACG"); (8, d "TTG")] /\ sorted_after (-1) [mkEx 5 8 0 0; mkEx 12 12 1 2; mkEx 15 22 2 1].
+Proof. split; [vm_compute; reflexivity | cbn; lia]. Qed.
+
 (* non-vacuity: a synonymous SNV, then a missense SNV, then a 1-base coding insertion *)
 Example C15_example :
   let t := [mkRow (d "AAA") "K" 1; mkRow (d "AAG") "K" 2; mkRow (d "AGA") "R" 1]%string in
@@ -68,3 +91,6 @@ Print Assumptions C15_verdict_order_free.
 Print Assumptions C15_verdict_local.
 Print Assumptions C15_ppe_on_background_refused.
 Print Assumptions C15_ppe_on_deleted_base_refused_iff.
+Print Assumptions C15_codons_in_range_complete.
+Print Assumptions C15_codons_in_range_no_adjacent_dup.
+Print Assumptions C15_codons_example.
